@@ -75,7 +75,7 @@ PROPS = {
                    'trace/next openings of COLUMNS values and PUBLIC_INPUTS public inputs; Stark::fri_instance lists one oracle per commitment in the order the verifier lists the caps (trace, auxiliary iff lookups / CTLs, quotient iff there are quotient polynomials) and opens EVERY committed polynomial at zeta, the trace and auxiliary ones also at g*zeta, and the cross-table-lookup Z polynomials at 1; verify_stark_proof returns Ok only if the shape was validated and verify_stark_proof_with_challenges accepted under the challenges of a FRESH transcript derived with ignore_trace_cap = false and nothing supplied from outside, the public inputs absorbed first and every commitment of the proof handed to the transcript function in its own slot (that function and the checks themselves are uninterpreted in that contract). The rest of the STARK verifier and the prover '
                    '(iterator pipelines) are covered by a bounded stand-in only.',
         level_note='Trusted: Verus+Z3; abstract ring for packed fields; lane-wise scalar multiplication uninterpreted. verify_stark_proof_with_challenges, '
-                   'compute_quotient_polys, eval_vanishing_poly, get_challenges: bounded harness only (flat_map/chunks/Option plumbing outside the Verus subset): '
+                   'compute_quotient_polys, eval_vanishing_poly, the transcript function get_challenges (the free function; its two method wrappers are under contract): bounded harness only (flat_map/chunks/Option plumbing outside the Verus subset): '
                    'a Fibonacci STARK and a family of counter STARKs (2..40 columns, 8..128 rows; declared degree 1..3 at blowup 2, 2..5 at blowup 4, 3..9 at blowup 8, i.e. quotients '
                    'split into 1..8 chunks incl. the non-powers of two): honest traces proved and accepted; corrupted first / '
                    'interior / last rows, false public inputs (also pairs of errors that would cancel under a shared weight) and altered proof elements never accepted; '
@@ -214,7 +214,7 @@ PROPS = {
                    'their stated preconditions. Byte decoders, the decompression of compressed proofs (the open finding F5 is a panic there; unit compressed_verify treats those functions as uninterpreted and total, so it does NOT speak about their panics) and the STARK verifier after shape validation are covered by the bounded stand-in only '
                    '(c18_c17_decoders: truncations / bit flips / 0xff runs of encoded proofs and circuit data; c18_compressed_malformed: open finding F5; '
                    'c18_stark_malformed: 42 surgeries (incl. Some(empty vector) for every optional opening) x 3 configurations x trace sizes, and final-polynomial / cap / round surgeries on proofs made for the FRI parameters of a recursive verifier (verifier_circuit_fri_params = Some, degrees 30, 14, 10, 6); c03_c18_surgery_*: every proof component altered, truncated, extended under 3 configurations).',
-        remainder=['verify_compressed / decompress (HashMap keyed by proof data)', 'byte decoders (util/serialization)', 'starky verifier after validate_proof_shape (get_challenges, verify_stark_proof_with_challenges: bounded harness only)'],
+        remainder=['decompression of compressed proofs: get_inferred_elements, CompressedFriProof::decompress (HashMap keyed by proof data; the panics of F5 sit there; only the skeleton of the compressed verify is under contract)', 'byte decoders (util/serialization)', 'starky verifier after validate_proof_shape (get_challenges, verify_stark_proof_with_challenges: bounded harness only)'],
     ),
     'C02': dict(
         title='No accepted proof exists for an assignment that violates the circuit',
